@@ -27,7 +27,7 @@ BOUNDARY = {
     'frozenset': [['fset', []], ['fset', [['int', 1]]], ['fset', [['int', 1], ['str', 'ab'], ['int', 300]]]],
     'dict': [['dict', []], ['dict', [[['int', 1], ['int', 2]]]], ['dict', [[['str', 'b'], ['int', 1]], [['str', 'a'], ['int', 2]]]],
              ['dict', [[['str', 'a'], ['int', 1]], [['str', 'b'], ['list', [['int', 1]]]], [['int', 3], ['none']]]]],
-    'str': [['str', ''], ['str', 'a'], ['str', 'abcdefghij klmnop'], ['str', "it's \"q\" \\ \n"], ['str', 'x' * 23],
+    'str': [['str', ''], ['str', 'a'], ['str', 'abcdefghij klmnop'], ['str', 'Epsilon Zeta eta THETA iota kappa lambda mu nu xi omicron pi rho sigma tau'], ['str', "it's \"q\" \\ \n"], ['str', 'x' * 23],
             ['str', 'lorem ipsum dolor sit amet consectetur adipiscing']],
     'bytes': [['bytes', ''], ['bytes', '61'], ['bytes', b'abcdefghij klmnop'.hex()], ['bytes', b'\x00\xff\' " \\'.hex()],
               ['bytes', (b'x' * 23).hex()]],
@@ -154,6 +154,12 @@ def oracle(case):
             where = 'val'
     obj = _place(x, where)
     sort = bool(case.get('sort'))
+    if variant == 'ci':
+        # an equal (case-insensitively) but differently spelled value of the same class, and the plain value, are
+        # printed first with the same settings: this instance must still come out in its own spelling
+        bv = vtypes.base_value(x)
+        for twin in (cls(bv.swapcase()), bv.swapcase(), cls(bv.upper())):
+            values.pp(_place(twin, 'val' if where == 'key' else where), width=case['width'], ribbon_width=case['ribbon'], indent=case['indent'])
     p = values.pp(obj, width=case['width'], ribbon_width=case['ribbon'], indent=case['indent'], sort_dict_keys=sort, **(case.get('opts') or {}))
     labels = [base, variant]
     if p.exc is not None:
